@@ -51,17 +51,24 @@ class OuterKwOnly(param.Parameterized):
         super().__init__(a=a, b=b)
 
 
-CLS = {"kw": OuterKw, "pos2": OuterPos2, "poskw": OuterPosKw, "closed": OuterClosed, "kwonly": OuterKwOnly}
+class OuterKwReq(param.Parameterized):
+    locals().update(_params())
+
+    def __init__(self, a, *, b):
+        super().__init__(a=a, b=b)
+
+
+CLS = {"kw": OuterKw, "pos2": OuterPos2, "poskw": OuterPosKw, "closed": OuterClosed, "kwonly": OuterKwOnly, "kwreq": OuterKwReq}
 NAN = float("nan")
 
 
 def value(p, tok):
     if p in ("a", "b"):
-        return {"0": 0, "3": 3, "neg": -2.5, "inf": float("inf"), "big": 1e300, "4": 4, "7": 7, "9": 9, "none": None}[tok]
+        return {"0": 0, "3": 3, "neg": -2.5, "inf": float("inf"), "ninf": float("-inf"), "big": 1e300, "4": 4, "7": 7, "9": 9, "none": None}[tok]
     if p == "s":
         return {"empty": "", "plain": "x", "escapes": "it's \"q\"\n\\t\\", "unicode": "café \U0001F600"}[tok]
     if p == "l":
-        return {"empty": [], "nested": [1, [2, "a"]], "onetuple": [(3,)], "withinf": [float("inf"), -1]}[tok]
+        return {"empty": [], "nested": [1, [2, "a"]], "onetuple": [(3,)], "withinf": [float("inf"), -1], "withninf": [float("-inf"), (float("-inf"),)]}[tok]
     if p == "t":
         return {"none": None, "pair": (1, 2), "one": (5,)}[tok]
     if p == "d":
